@@ -163,6 +163,12 @@ func (s *shutdownContext) clearExitedChannel() error {
 		select {
 		case <-v:
 		case <-exitTimeout:
+			// The processes that did not exit in time are given up on: stop tracking them,
+			// so that a termination event that arrives after this point is recognised as
+			// belonging to a generation that has already been torn down.
+			s.runtimeDomainExitedMutex.Lock()
+			s.runtimeDomainExited = make(map[string]chan struct{}, mapLen)
+			s.runtimeDomainExitedMutex.Unlock()
 			return errors.New("timed out waiting for runtime processes to exit")
 		}
 	}
